@@ -935,6 +935,14 @@ TrTxFail ==
   /\ l' = l + 1
   /\ UNCHANGED <<scen, cfg, msg, order, reads, ch, hi, pkt, rcvd, skipTo, ackCum, ackGap, arw, outst, lastSack, sackEv, sn, step, newData, misc, rs, acc>>
 
+\* end of a concurrency storm (C20): after a graceful two-sided shutdown everything that was accepted was read
+TrStormEnd ==
+  /\ IsEv("stormend")
+  /\ LET undel == {id \in DOMAIN msg : msg[id].ok /\ msg[id].len > 0 /\ id \notin DeliveredIds}
+     IN viol' = viol \cup (IF E.ending = "shutdown" THEN {V("C20_GracefulDelivery", <<msg[id].ep, msg[id].sid, id>>) : id \in undel} ELSE {})
+  /\ l' = l + 1
+  /\ UNCHANGED <<scen, cfg, msg, order, reads, ch, hi, pkt, rcvd, skipTo, ackCum, ackGap, arw, outst, lastSack, sackEv, sn, step, newData, misc, rs, acc>>
+
 Passive == {"drop", "connclose", "note"}
 TrPassive ==
   /\ l <= Len(Trace) /\ Trace[l].ev \in Passive
@@ -943,7 +951,7 @@ TrPassive ==
   /\ UNCHANGED <<scen, cfg, msg, order, reads, ch, hi, pkt, rcvd, skipTo, ackCum, ackGap, arw, outst, lastSack, sackEv, sn, newData, misc, rs, acc, viol>>
 
 Next == TrCfg \/ TrWCall \/ TrWrite \/ TrRead \/ TrTx \/ TrForge \/ TrChunkData \/ TrChunkSack \/ TrChunkFwd \/ TrChunkShutdown \/ TrChunkReconfig \/ TrChunkHb \/ TrChunkOther
-        \/ TrRx \/ TrSnap \/ TrSame \/ TrEnd \/ TrApi \/ TrCb \/ TrTick \/ TrExpect \/ TrDiff \/ TrHsFinal \/ TrHsSpecial \/ TrShutEnd \/ TrAdvEnd \/ TrCall \/ TrRet \/ TrInject \/ TrCrashObs \/ TrTxFail \/ TrPassive
+        \/ TrRx \/ TrSnap \/ TrSame \/ TrEnd \/ TrApi \/ TrCb \/ TrTick \/ TrExpect \/ TrDiff \/ TrHsFinal \/ TrHsSpecial \/ TrShutEnd \/ TrAdvEnd \/ TrCall \/ TrRet \/ TrInject \/ TrCrashObs \/ TrTxFail \/ TrStormEnd \/ TrPassive
 
 Spec == Init /\ [][Next]_vars
 
